@@ -136,6 +136,25 @@ func init() {
 			fr.i.run.covers[rtStr(a[0])] = true
 			return nil
 		},
+		"CoverIf": func(fr *frame, a []value) value {
+			r := fr.i.run
+			label := rtStr(a[1])
+			if r.covers[label] || r.w.d.isCovered(r.entry.Name, label) {
+				return nil
+			}
+			switch c := a[0].(type) {
+			case bool:
+				if c {
+					r.covers[label] = true
+				}
+			case symBool:
+				if r.check(c.t) == Sat {
+					r.covers[label] = true
+					r.w.d.markCovered(r.entry.Name, label)
+				}
+			}
+			return nil
+		},
 		"SetNow": func(fr *frame, a []value) value {
 			fr.i.run.now = a[0]
 			return nil
